@@ -106,7 +106,8 @@ func UnmarshalAttribute(attr *api.Attribute) (bgp.PathAttributeInterface, error)
 		for _, n := range nlris {
 			l = append(l, bgp.PathNLRI{NLRI: n})
 		}
-		attr, _ := bgp.NewPathAttributeMpReachNLRI(rf, l, nexthop)
+		// both next hops go to the constructor: it computes the attribute length
+		attr, _ := bgp.NewPathAttributeMpReachNLRI(rf, l, nexthop, linkLocalNexthop)
 		attr.LinkLocalNexthop = linkLocalNexthop
 		return attr, nil
 	case *api.Attribute_MpUnreach:
